@@ -38,6 +38,9 @@ def items(tier, seed):
             if tier == "quick" and shape == (2, 2) and mode != "default":
                 continue
             out.append(dict(name=f"{cls}-{cap}-{shape}-{mode}", cls=cls, cap=cap, shape=list(shape), mode=mode, tasks=0, seed=seed))
+    for cls in ["ReplayBuffer", "LAP", "PrioritizedReplayBuffer"]:
+        for cap, mode in itertools.product([2, 3] if tier == "quick" else caps, ["default", "custom"]):
+            out.append(dict(name=f"{cls}-{cap}-kwreversed-{mode}", cls=cls, cap=cap, shape=[2], mode=mode, tasks=0, seed=seed, kw="reversed"))
     tasks = [1, 2] if tier == "quick" else [1, 2, 3]
     for inner in ["ReplayBuffer", "LAP"]:
         for cap, nt in itertools.product(caps if tier == "quick" else [1, 2, 3], tasks):
@@ -279,7 +282,10 @@ def apply(bd, op):
         t = bd.sel if mt else 0
         s = make_sample(cfg, bd.n_added[t], t)
         before = [canon_one(bd, u) for u in range(len(bd.ref))]
-        bd.buf.add_sample(**s)
+        if cfg.get("kw") == "reversed":
+            bd.buf.add_sample(**dict(reversed(list(s.items()))))  # same keyword arguments, another order
+        else:
+            bd.buf.add_sample(**s)
         bd.n_added[t] += 1
         bd.ref[t].append(s)
         if len(bd.ref[t]) > cfg["cap"]:
